@@ -116,4 +116,11 @@ ValidReplaceLeader(st, l, m) == l \in GLLeaders(st) /\ m \in GLMembers(st, l)
 
 (* position of the group holding v in the leader order (0 if none) *)
 GLGroupPos(st, v) == IF GLHolders(st, v) = {} THEN 0 ELSE GLIndexOf(st.order, GLGetGroup(st, v))
+(* get_repr(): one short text per non-empty group, in list order; the text is built from the group's  *)
+(* first member (the oldest) and its last or second member.  Structure only: <<kind, a, b>> where kind *)
+(* 1 = the lone value itself, 2 = "b and a" (two members), 3 = "last to first" (three or more).       *)
+GLReprOf(c) == IF Len(c) = 1 THEN <<1, c[1], c[1]>>
+               ELSE IF Len(c) = 2 THEN <<2, c[2], c[1]>> ELSE <<3, c[Len(c)], c[1]>>
+GLRepr(st)  == LET nonempty == SelectSeq(st.order, LAMBDA l : l \in DOMAIN st.content /\ Len(st.content[l]) > 0)
+               IN  [i \in DOMAIN nonempty |-> GLReprOf(st.content[nonempty[i]])]
 =============================================================================
